@@ -1,7 +1,9 @@
 #!/venv/bin/python
 """Confirm a seeded breaking change and run the checks against it.
 
-usage: tools/seed_eval.py <property id> <n> [check ids ...]     (source: /tmp/seed/<pid>_out/<n>/{patch.diff,demo.py,notes.md})
+usage: tools/seed_eval.py [--scratch] <property id> <n> [check ids ...]     (source: /tmp/seed/<pid>_out/<n>/{patch.diff,demo.py,notes.md})
+   --scratch: step 2 runs the checks against the patched scratch copy (VERIF_REPO_SRC) instead of patching /repo itself: the same
+              code under test, but several evaluations can run side by side (used for the mass re-evaluation after /repo moved on)
 
 1. in a scratch worktree of /repo (outside /repo and /verif, removed afterwards): demo passes on the unmodified tree, the patch
    applies, the repository's test-suite still passes (186) with it, the demo fails with it;
@@ -29,8 +31,10 @@ def sh(cmd, cwd=None, env=None, timeout=3600):
 
 
 def main():
-    pid, n = sys.argv[1], sys.argv[2]
-    checks = sys.argv[3:] or [pid]
+    scratch_mode = '--scratch' in sys.argv
+    argv = [a for a in sys.argv[1:] if a != '--scratch']
+    pid, n = argv[0], argv[1]
+    checks = argv[2:] or [pid]
     src = '/tmp/seed/%s_out/%s' % (pid, n)
     dest = os.path.join(VERIF, 'seeded', '%s_%s' % (pid, n))
     patch = os.path.join(src, 'patch.diff')
@@ -52,13 +56,25 @@ def main():
         rc1, o1 = sh('%s %s/demo.py' % (PY, src), cwd=scratch, env=env, timeout=600)
         meta['verified']['demo_with_patch_exit'] = rc1
         meta['verified']['demo_output_tail'] = o1[-600:]
+        if scratch_mode and rca == 0:
+            for c in checks:
+                t0 = time.time()
+                rc, out = sh('./check %s --tier quick' % c, cwd=VERIF, env={'VERIF_EVIDENCE_DIR': scratch + '/evidence-scratch', 'VERIF_REPO_SRC': scratch + '/src'})
+                viol = [l for l in out.splitlines() if l.startswith('VIOLATION')]
+                first = [l for l in out.splitlines() if l.startswith(('DIVERGENCE', 'MISMATCH', 'TLC:', 'TRACE'))][:2]
+                meta['checks'][c] = {'exit': rc, 'violation_lines': len(viol), 'first': first, 'wall_s': round(time.time() - t0, 1), 'mode': 'scratch copy'}
     finally:
         sh('git -C /repo worktree remove --force %s' % scratch)
     ok = meta['verified'].get('demo_on_unmodified_exit') == 0 and meta['verified'].get('patch_applies') and \
         '186 passed' in meta['verified'].get('test_suite_with_patch', '') and meta['verified'].get('demo_with_patch_exit') not in (0, None)
     meta['confirmed'] = bool(ok)
     print('confirmed' if ok else 'NOT CONFIRMED', json.dumps(meta['verified'])[:600])
-    if ok:
+    if ok and scratch_mode:
+        for c, v in meta['checks'].items():
+            print(c, 'exit', v['exit'], 'violations', v['violation_lines'], v['first'][:1])
+    if not ok:
+        meta['checks'] = {}
+    if ok and not scratch_mode:
         rc, out = sh('git -C /repo status --porcelain')
         assert out.strip() == '', '/repo is not clean: %s' % out
         rca, oa = sh('git -C /repo apply %s' % patch)
@@ -82,7 +98,7 @@ def main():
         meta['needs'] = open(os.path.join(dest, 'notes.md')).read()[:1500]
     except OSError:
         pass
-    meta['ran'] = 'tools/seed_eval.py %s %s %s' % (pid, n, ' '.join(checks))
+    meta['ran'] = 'tools/seed_eval.py %s%s %s %s' % ('--scratch ' if scratch_mode else '', pid, n, ' '.join(checks))
     # keep the history of evaluations (the repository and the checks both move on)
     head = sh('git -C /repo log --format=%h -1')[1].strip()
     runs = []
